@@ -23,7 +23,7 @@ ASSUMES = ["operations are called with any site index (the state is preserved by
 HEADER = "From Coq Require Import List. Import ListNotations.\nFrom Yaqs Require Import Model.Gauge."
 
 
-def random_mps(rng, L, dims, chi, deficient, alias=None):
+def random_mps(rng, L, dims, chi, deficient, alias=None, rescale=None):
     """alias: None | "object" (one array object reused at every bulk site of equal shape) | "view" (bulk sites are views of one
     buffer, as MPO.identity(L).to_mps() produces them): a gauge move must not write through to another site"""
     from mqt.yaqs.core.data_structures.networks import MPS
@@ -36,6 +36,13 @@ def random_mps(rng, L, dims, chi, deficient, alias=None):
         if deficient and r > 1:
             t[:, :, -1] = t[:, :, 0]  # two equal columns: the bond is rank deficient
         tens.append(t)
+    if rescale and L >= 3:
+        # a legal but unusual gauge: one tensor tiny, another huge (product of the scales = 1), or a state of tiny norm
+        i, j = (int(x) for x in rng.choice(L, size=2, replace=False))
+        f = float(10.0 ** rng.integers(6, 12))
+        tens[i] = tens[i] * (1.0 / f)
+        if rescale == "balanced":
+            tens[j] = tens[j] * f
     if alias and L >= 4:
         bulk = [i for i in range(1, L - 1) if tens[i].shape == tens[1].shape]
         if alias == "object":
@@ -105,9 +112,9 @@ def vec_of(mps, flipped):
     return v.reshape(-1)
 
 
-def run_case(seed, L, dims, chi, deficient, ops, alias=None):
+def run_case(seed, L, dims, chi, deficient, ops, alias=None, rescale=None):
     rng = np.random.default_rng(seed)
-    mps = random_mps(rng, L, dims, chi, deficient, alias)
+    mps = random_mps(rng, L, dims, chi, deficient, alias, rescale)
     v = dense.mps_dense(mps)
     flipped = False
     problems = []
@@ -127,7 +134,7 @@ def run_case(seed, L, dims, chi, deficient, ops, alias=None):
             if not unit or abs(ov - nv * nw) > 1e-8 * max(nv * nw, 1e-30):
                 problems.append(f"after {op} (step {k}) the vector is not the normalised input: norm {nw:.12f}, overlap defect {abs(ov - nv * nw):.2e}")
         else:
-            tol = 1e-9 * max(nv, 1.0) if op[2] == "QR" or op[0] == "flip" else 1e-5 * max(nv, 1.0)
+            tol = 1e-9 * (max(nv, 1.0) if not rescale else nv) if op[2] == "QR" or op[0] == "flip" else 1e-5 * max(nv, 1.0)
             if w.shape != v.shape or np.linalg.norm(w - v) > tol:
                 problems.append(f"{op} (step {k}) changed the represented vector by {np.linalg.norm(w - v):.3e}")
         v = w
@@ -155,9 +162,16 @@ def correspond(ctx):
             dims = [2] * L
             ops = gen_ops(ctx.rng, L)
             ctx.count("aliased_site_tensors")
-        impl.append(run_case(seed, L, dims, chi, deficient, ops, alias))
+        rescale = None
+        if not alias and k % 4 == 1:
+            rescale = ["balanced", "tiny"][(k // 4) % 2]
+            L = max(L, 3)
+            dims = [int(x) for x in ctx.rng.choice([2, 2, 3], size=L)]
+            ops = [(o[0], min(o[1], L - 1), "QR") for o in gen_ops(ctx.rng, L)]  # SVD mode cuts by an ABSOLUTE 1e-12: not scale-free
+            ctx.count("rescaled_gauge")
+        impl.append(run_case(seed, L, dims, chi, deficient, ops, alias, rescale))
         exprs.append(f"let g := fold_left apply_gop {g_list([g_op(o) for o in ops])} (unknown {L}%nat) in (lf g, rf g, centres g)")
-        cases.append(dict(seed=seed, L=L, dims=dims, chi=chi, deficient=deficient, ops=ops, alias=alias))
+        cases.append(dict(seed=seed, L=L, dims=dims, chi=chi, deficient=deficient, ops=ops, alias=alias, rescale=rescale))
     vals = common.coq_eval_sharded(HEADER, exprs, tag="c10")
     for c, (flags, centres, problems), (mlf, mrf, mcent) in zip(cases, impl, vals):
         kinds = {o[0] for o in c["ops"]}
@@ -214,6 +228,6 @@ def replay(ctx, data):
     if rp.get("oracle") == "pad":
         return pad_oracle(rp["args"])
     if rp.get("oracle") == "sequence":
-        _, _, problems = run_case(rp["seed"], rp["L"], rp["dims"], rp["chi"], rp["deficient"], [tuple(o) for o in rp["ops"]], rp.get("alias"))
+        _, _, problems = run_case(rp["seed"], rp["L"], rp["dims"], rp["chi"], rp["deficient"], [tuple(o) for o in rp["ops"]], rp.get("alias"), rp.get("rescale"))
         return "; ".join(problems) or None
     return "re-run the check: " + "; ".join(b["what"] for b in data.get("broken", []))
